@@ -362,6 +362,8 @@ def dp_return(dp, lr, cin, pcv):
     else:
         op2 = i8
     sets = {}
+    if opn == 'bic':
+        lr &= ~op2 & M32                  # (the operation clears those bits of whatever Rn holds)
     if rn == 15:
         lr = (pcv - op2) & M32 if opn == 'sub' else (pcv + op2) & M32
     else:
@@ -528,7 +530,8 @@ def run_psr_walk(case):
                 # RFE: PC and CPSR come from two words in memory (read with the current data endianness)
                 rn = op['rn']
                 addr = G.DATA + 0x100 + 8 * (op['imm12'] & 0x1F)
-                if op.get('dp', 0) & 0x300 == 0x300:
+                if op.get('dp', 0) & 0x300 == 0x300 and not (0xFFFFFFF0 <= pre_regs['PC'] <= 0xFFFFFFFF):
+                    # (unless the instruction itself is about to be placed there: an earlier return may have left the PC in the last words)
                     addr = 0xFFFFFFF8                             # a frame that ends exactly at the end of the address space: nothing wraps, fully defined
                 bo = 'big' if (pre_cpsr >> 9) & 1 else 'little'
                 M.poke(arm, addr, lr.to_bytes(4, bo) + v.to_bytes(4, bo))
@@ -543,7 +546,7 @@ def run_psr_walk(case):
                 expect_sp[SP[cur]] = v
                 rn = op['rn']
                 addr = G.DATA + 0x100 + 8 * (op['imm12'] & 0x1F)
-                if op.get('dp', 0) & 0x300 == 0x300:
+                if op.get('dp', 0) & 0x300 == 0x300 and not (0xFFFFFFF0 <= pre_regs['PC'] <= 0xFFFFFFFF):
                     addr = 0xFFFFFFFC                             # the last word of the address space
                 M.poke(arm, addr, lr.to_bytes(4, 'big' if (pre_cpsr >> 9) & 1 else 'little'))
                 r.set(rn, addr)
